@@ -149,8 +149,14 @@ Definition gate_ok_b (f opc rc rv : N) (saw_indirect : bool) (used_event : N) (t
      | 6 => (rc =? 0) && (rv =? (if bit f B_VERSION_1 then 12 else 10))   (* 5.1.6: num_buffers present iff VERSION_1 (MRG_RXBUF never negotiated) *)
      | 7 => first_share_len tr =? (if bit f B_VERSION_1 then 12 else 10)
      | 11 => (rc =? 0) && (rv =? (if bit f B_VERSION_1 then 12 else 10))    (* received frames are found behind the header of the negotiated form *)
+     | 12 => true   (* the verdict depends on the buffer length: checked by gate_tx_len_b below *)
+     | 13 => true   (* a nearly full queue: the common clause above (an indirect table only if negotiated) is the point *)
      | _ => true
      end.
+
+(* operation 12: a transmit buffer is accepted exactly when it can hold the header of the negotiated form *)
+Definition gate_tx_len_b (f len rc : N) : bool :=
+  Bool.eqb (rc =? 0) ((if bit f B_VERSION_1 then 12 else 10) <=? len).
 
 (* ---------- rendering on the MMIO transport (Model/Mmio.v) ---------- *)
 Inductive racc := RAcc (a : access) | RKeep (e : tev).
